@@ -2,11 +2,12 @@ from pyvc.cbase import Registry
 
 
 def build_registry():
-    from . import externs, expect, spawnbase, screen, ansi
+    from . import externs, expect, spawnbase, screen, ansi, utils
     reg = Registry()
     externs.register(reg)
     spawnbase.register(reg)
     expect.register(reg)
     screen.register(reg)
     ansi.register(reg)
+    utils.register(reg)
     return reg
